@@ -120,6 +120,11 @@ def catalogue(rng=None, widths=(1, 2, 3), groups=('arith', 'logic', 'fxp'), big=
                     continue
                 for k in ('And', 'Or', 'Nor') + (('Xor',) if n >= 2 else ()):
                     add('logic', k, [w] * n, [w], lambda hw, i, o, k=k: getattr(P, k)(hw, 'dut', list(i), o[0]), tag=' n=%d' % n)
+            if w == 1:
+                # many-input gates (reduction trees / ladders of any shape): rows are sampled, with every one-hot and one-cold vector
+                for n in (7, 9, 10, 12, 16, 17, 24):
+                    for k in ('And', 'Or', 'Nor', 'Xor'):
+                        add('logic', k, [1] * n, [1], lambda hw, i, o, k=k: getattr(P, k)(hw, 'dut', list(i), o[0]), tag=' n=%d' % n)
             if w >= 1:
                 add('logic', 'AndBits', [w], [1], lambda hw, i, o: P.AndBits(hw, 'dut', i[0], o[0]))
                 add('logic', 'OrBits', [w], [1], lambda hw, i, o: P.OrBits(hw, 'dut', i[0], o[0]))
@@ -256,6 +261,13 @@ def vectors(iw, rng, limit):
     if prod <= limit // 2:
         for v in itertools.product(*edge):
             vecs.add(tuple(v))
+    # many inputs: exactly one input active / exactly one inactive (a reduction that drops an operand is only visible there)
+    if len(iw) >= 5:
+        for k in range(len(iw)):
+            vecs.add(tuple(((1 << w) - 1 if j == k else 0) for j, w in enumerate(iw)))
+            vecs.add(tuple((0 if j == k else (1 << w) - 1) for j, w in enumerate(iw)))
+        vecs.add(tuple(0 for _ in iw))
+        vecs.add(tuple((1 << w) - 1 for w in iw))
     # operand pairs that differ in exactly one bit position / by exactly one power of two (carry chains, borrow chains,
     # equality reductions over many bits: every bit position must matter), within a third of the budget
     if len(iw) >= 2 and iw[0] > 1 and iw[1] > 1:
